@@ -17,6 +17,7 @@
 //                                      held by the live solver / smoother / AMG objects (via = setters | json | json+setters)
 //   life|<order>                       every admissible interleaving of create/solve/destroy of a parameter list,
 //                                      two solvers and a preconditioner gives the isolated results; heap returns to baseline
+#include <algorithm>
 #include <sys/mman.h>
 #include <sys/resource.h>
 #include <signal.h>
@@ -129,6 +130,12 @@ static const std::vector<Sys>& systems() {
     static std::vector<Sys> out;
     if (out.empty()) {
         for (auto &S : sg::real_systems(vf::thorough() ? 1 : 0)) if (S.A.n <= 64 && S.A.n >= 1) out.push_back(to_sys(S));
+        // the same operators with the entries of every row stored in descending column order (rows need not be sorted):
+        // both interfaces receive the same arrays, so results stay bitwise comparable; a hidden copy-and-sort on one side
+        // changes the summation order of every product with the user's matrix
+        { size_t k = out.size(); for (size_t q = 0; q < k; ++q) if (out[q].n >= 3) { Sys r = out[q]; r.name += "/rows-reversed";
+            for (int i = 0; i < r.n; ++i) { std::reverse(r.col.begin() + r.ptr[i], r.col.begin() + r.ptr[i + 1]); std::reverse(r.val.begin() + r.ptr[i], r.val.begin() + r.ptr[i + 1]); std::reverse(r.val2.begin() + r.ptr[i], r.val2.begin() + r.ptr[i + 1]); }
+            out.push_back(r); } }
         for (auto &S : sg::graph_systems(2, vf::thorough() ? 5 : 4, {1.0}, {1})) {
             out.push_back(to_sys(S));
         }
@@ -409,6 +416,17 @@ static void param_case(Out o, const PSet &ps, const std::string &via) {
     else {
         { std::ofstream f(jfile); f << json_text(ps); }
         prm = amgcl_params_create();
+        if (via.compare(0, 3, "pre") == 0) {
+            // "pre<k><s|d>+json": entry k (or every entry, k = 'a') is set through the typed setters BEFORE the file is read, with
+            // the file's value (s) or another one (d).  Whether the reader replaces or merges, the file's values must reach the solver.
+            bool all = via[3] == 'a'; int k = all ? -1 : std::atoi(via.c_str() + 3); bool diff = via.find("d+json") != std::string::npos;
+            for (int q = 0; q < (int)ps.e.size(); ++q) if (all || q == k) {
+                auto &e = ps.e[q];
+                if (e.kind == 'i') amgcl_params_seti(prm, e.name, diff ? e.i + 1 : e.i);
+                else if (e.kind == 'f') amgcl_params_setf(prm, e.name, diff ? e.f * 0.5f : e.f);
+                else amgcl_params_sets(prm, e.name, e.s);
+            }
+        }
         amgcl_params_read_json(prm, jfile.c_str());
         unlink(jfile.c_str());
         if (via == "json+setters") amgcl_params_seti(prm, "solver.maxiter", 17);
@@ -470,15 +488,19 @@ static void param_case(Out o, const PSet &ps, const std::string &via) {
 }
 
 static void run_params() {
-    for (const PSet &ps : psets()) for (const char *via : {"setters", "json", "json+setters"}) {
-        if (ps.null_handle || ps.e.empty()) continue;
+    for (const PSet &ps : psets()) {
+      if (ps.null_handle || ps.e.empty()) continue;
+      std::vector<std::string> vias = {"setters", "json", "json+setters", "preas+json", "pread+json"};
+      for (size_t k = 0; k < ps.e.size(); ++k) { vias.push_back("pre" + std::to_string(k) + "s+json"); vias.push_back("pre" + std::to_string(k) + "d+json"); }
+      for (const std::string &via : vias) {
         std::string key = vf::KS() << "param|" << ps.name << "|" << via;
         if (!vf::take([&]{ return key; })) continue;
         fr::Result r = fr::run([&](fr::Out &o) { child_limits(); param_case(Out{o}, ps, via); }, 40.0);
         relay(r, key, "bounds.access_outside_user_array");
         vf::nontrivial(vf::hstr(key));
+      }
     }
-    vf::space("10 parameter sets x {typed setters, JSON file, JSON file then a setter}: every entry is looked up in the live solver / finest-level smoother / AMG object");
+    vf::space("10 parameter sets x {typed setters, JSON file, JSON file then a setter, every single entry / all entries set through the typed setters (same or different value) and then the JSON file}: every entry is looked up in the live solver / finest-level smoother / AMG object");
 }
 
 // ---------------------------------------------------------------------------------------------
